@@ -243,6 +243,14 @@ def gen_values(rng, n: int, cls: str, f: str):
         return [rng.dyadic(-8, 8, 3) for _ in range(n)]
     if cls == "dyadic_nz":     # non-zero dyadic, both signs
         return [(rng.randint(1, 64) / 8.0) * (1 if rng.chance(0.7) else -1) for _ in range(n)]
+    if cls == "wide":
+        # positive finite values spread over 1e-300 ... 1e300: paired observations often differ by more than 308 decimal orders
+        # (their ratio overflows or is subnormal although both logarithms are ordinary numbers)
+        out = []
+        for _ in range(n):
+            e = rng.choice([-300, -160, 150, 300]) + rng.randint(-8, 8) if rng.chance(0.5) else rng.randint(-300, 300)
+            out.append((1.0 + 8.0 * rng.random()) * 10.0 ** max(-300, min(300, e)))
+        return out
     if cls == "zeros":         # dyadic with many zeros and negatives (divisors / log arguments outside the domain)
         return [rng.choice([0.0, 0.0, 1.0, -1.0, 2.5, -0.5, 4.0]) for _ in range(n)]
     # positive multiplicative random walk; per-period log growth within +-0.4/a so that annualised rates stay moderate
@@ -624,6 +632,10 @@ def gen_oracle_cases(ctx: Ctx, rng, count: int):
         if what == "change":
             kind = rng.choice(FLEX + FLEX + (ANNUAL if f != "I" else []))
             cls = "dyadic" if kind in ("diff", "adiff") and rng.chance(0.7) else "positive"
+            # magnitude axis: the documented formulas evaluated in floats stay finite where a rearranged formula need not
+            if kind in ("diff_log", "adiff_log") and rng.chance(0.3) or kind in ("diff", "adiff", "pct", "roc") and rng.chance(0.05):
+                cls = "wide"
+            ctx.count(f"oracle_data:{cls}")
             cols = [punch(rng, gen_values(rng, n, cls, f), rng.choice([0.0, 0.1, 0.3]), rng.chance(0.3)) for _ in range(nv)]
             shift = gen_shift(rng, f)
             if f == "I" and isinstance(shift, str):
@@ -681,7 +693,7 @@ def gen_oracle_cases(ctx: Ctx, rng, count: int):
 
 def run_oracle_case(ctx: Ctx, case):
     {"change": oracle_change, "conv": oracle_conv, "roundtrip": oracle_roundtrip, "variants": oracle_variants,
-     "reuse": oracle_reuse, "reuse_change": oracle_reuse_change}[case["op"]](ctx, case)
+     "reuse": oracle_reuse, "reuse_change": oracle_reuse_change, "spelling": oracle_spellings}[case["op"]](ctx, case)
 
 
 
@@ -1184,6 +1196,117 @@ def gen_reuse_cases(ctx: Ctx, rng, count: int):
     return cases
 
 
+# ---------------------------------------------------------------------------------------
+# one function, several spellings (positional / keyword / default arguments, functional form / in-place method)
+# ---------------------------------------------------------------------------------------
+
+def keyword_allowed(kind: str, name: str) -> bool:
+    import inspect
+    try:
+        p = inspect.signature(getattr(ir.Series, kind)).parameters
+    except (TypeError, ValueError):
+        return False
+    if name in p:
+        return p[name].kind in (inspect.Parameter.POSITIONAL_OR_KEYWORD, inspect.Parameter.KEYWORD_ONLY)
+    return any(q.kind is inspect.Parameter.VAR_KEYWORD for q in p.values())
+
+
+def same_tables(y, z) -> bool:
+    gy, gz = table_of(y), table_of(z)
+    return set(gy) == set(gz) and all(len(gy[t]) == len(gz[t]) and all(close(float(u), float(v)) for u, v in zip(gy[t], gz[t])) for t in gy)
+
+
+def oracle_spellings(ctx: Ctx, case):
+    """every way of writing the same call gives the same series: positional vs keyword arguments, omitted arguments vs their
+    documented defaults, `irispie.f(x, …)` vs `x.copy().f(…)`"""
+    f, start, kind = case["freq"], case["start"], case["kind"]
+    rows = rows_of(case)
+    x = make_series(f, start, rows)
+    if x.start is None:
+        return
+    ctx.evaluations += 1
+    site = f"spelling-{kind}"
+    fn = getattr(ir, kind)
+
+    def method(*a, **kw):
+        z = make_series(f, start, rows) if kind not in CUMS else ch.copy()
+        getattr(z, kind)(*a, **kw)
+        return z
+
+    spellings = []
+    with warnings.catch_warnings(), np.errstate(all="ignore"):
+        warnings.simplefilter("ignore")
+        try:
+            if kind in CUMS:
+                k = case["shift"]
+                ch = getattr(ir, kind[4:])(x, k)
+                sp = case["span"]
+                mk = lambda: None if sp is None else ir.Span(CLS[f](sp[0]), CLS[f](sp[1]), sp[2])
+                base = fn(ch, k, x, mk())
+                spellings = [("shift positional, initial= span=", lambda: fn(ch, k, initial=x, span=mk())),
+                             ("shift= initial= span=", lambda: fn(ch, shift=k, initial=x, span=mk())),
+                             ("span= initial= shift= (reordered)", lambda: fn(ch, span=mk(), initial=x, shift=k)),
+                             ("shift, initial positional, span=", lambda: fn(ch, k, x, span=mk())),
+                             ("method, positional", lambda: method(k, x, mk())),
+                             ("method, keywords", lambda: method(shift=k, initial=x, span=mk()))]
+                if k == -1:
+                    spellings.append(("shift omitted (default -1)", lambda: fn(ch, initial=x, span=mk())))
+                if sp is None:
+                    spellings.append(("span omitted", lambda: fn(ch, k, x)))
+                    spellings.append(("span=None", lambda: fn(ch, k, x, None)))
+            elif kind in FLEX:
+                k = case["shift"]
+                base = fn(x, k)
+                spellings = [("method", lambda: method(k))]
+                if keyword_allowed(kind, "shift"):
+                    spellings += [("shift=", lambda: fn(x, shift=k)), ("method, shift=", lambda: method(shift=k))]
+                if k == -1:
+                    spellings.append(("shift omitted (default -1)", lambda: fn(x)))
+            else:
+                base = fn(x)
+                spellings = [("method", lambda: method())]
+        except Exception as e:
+            ctx.fail(site, case, f"{kind}: the plain positional call raises {e!r}")
+            return
+        for name, call in spellings:
+            try:
+                y = call()
+            except Exception as e:
+                ctx.fail(site, case, f"{kind} written as [{name}] raises {e!r} although the positional call works")
+                return
+            if not same_tables(base, y):
+                ctx.fail(site, case, f"{kind} written as [{name}] differs from the positional call "
+                                     f"(serials {min(table_of(y), default=None)}..{max(table_of(y), default=None)} vs {min(table_of(base), default=None)}..{max(table_of(base), default=None)})")
+                return
+    ctx.nontriv(("spelling", kind, f, len(spellings)))
+
+
+def gen_spelling_cases(ctx: Ctx, rng, count: int):
+    cases = []
+    for _ in range(count):
+        f = rng.weighted([("Q", 4), ("M", 3), ("Y", 2), ("H", 2), ("D", 1), ("I", 2)])
+        kind = rng.choice(FLEX + ANNUAL + CONV + CUMS + CUMS)
+        nv = rng.weighted([(1, 2), (2, 1)])
+        n = rng.randint(5, 16)
+        start = gen_start(rng, f)
+        cols = [gen_values(rng, n, "positive", f) for _ in range(nv)]
+        case = {"op": "spelling", "kind": kind, "freq": f, "start": start, "values": [list(r) for r in zip(*cols)]}
+        if kind in FLEX or kind in CUMS:
+            case["shift"] = -1 if rng.chance(0.4) else -rng.randint(2, 3)
+        if kind in CUMS:
+            lo, hi, k = start, start + n - 1, -case["shift"]
+            how = rng.weighted([("none", 2), ("forward", 3), ("backward", 3)])
+            if how == "none":
+                case["span"] = None
+            elif how == "forward":
+                a = rng.randint(lo + k, hi); case["span"] = [a, rng.randint(a, hi), 1]
+            else:
+                a = rng.randint(lo, hi - k); case["span"] = [a, rng.randint(lo, a), -1]
+        cases.append(case)
+        ctx.count(f"spelling:{kind}")
+    return cases
+
+
 FIXED_ORACLE_CASES = [
     # one deterministic round trip per cumulation function and direction, and the five conversion helpers (quarterly)
     *[{"op": "roundtrip", "kind": kind, "freq": "Q", "start": 8081, "shift": k, "direction": d, "span": sp,
@@ -1256,7 +1379,8 @@ def run(ctx: Ctx):
     for case in FIXED_ORACLE_CASES:
         run_oracle_case(ctx, case)
     xrng = ctx.rng.fork("oracle-extra")
-    extra = gen_variant_cases(ctx, xrng.fork("variants"), ctx.n(600, 12000)) + gen_reuse_cases(ctx, xrng.fork("reuse"), ctx.n(400, 8000))
+    extra = gen_variant_cases(ctx, xrng.fork("variants"), ctx.n(600, 12000)) + gen_reuse_cases(ctx, xrng.fork("reuse"), ctx.n(400, 8000)) \
+        + gen_spelling_cases(ctx, xrng.fork("spelling"), ctx.n(500, 8000))
     for case in extra:
         run_oracle_case(ctx, case)
         ctx.count("oracle:" + case["op"])
@@ -1294,6 +1418,11 @@ def search(ctx: Ctx, seeds):
     for case in FIXED_ORACLE_CASES:
         run_oracle_case(ctx, case)
     rng = ctx.rng.fork("search")
+    # first the axes on which a rearranged-but-"equal" formula or a changed signature shows: magnitudes, spellings
+    for case in gen_oracle_cases(ctx, rng.fork("magnitude"), 300 if small else 2500) + gen_spelling_cases(ctx, rng.fork("spelling"), 100 if small else 800):
+        run_oracle_case(ctx, case)
+        if len(ctx.failures) >= 5:
+            return
     for case in gen_variant_cases(ctx, rng.fork("variants"), 200 if small else 3000) + gen_reuse_cases(ctx, rng.fork("reuse"), 150 if small else 2000):
         run_oracle_case(ctx, case)
         if len(ctx.failures) >= 5:
